@@ -65,6 +65,7 @@ func (c *Config) Proxy(closing chan bool, cc io.ReadWriter, url *url.URL) error 
 	if err != nil {
 		return fmt.Errorf("connecting h2 to %v: %w", url, err)
 	}
+	defer sc.Close()
 	if err := forwardPreface(sc, cc); err != nil {
 		return fmt.Errorf("initializing h2 with %v: %w", url, err)
 	}
@@ -100,21 +101,49 @@ func (c *Config) Proxy(closing chan bool, cc io.ReadWriter, url *url.URL) error 
 	}
 	sToC.processors = cToS.processors
 
+	// stop is closed when the session has to end: one direction finished or failed, or the proxy
+	// is shutting down. Closing both connections then unblocks every read and write that is still
+	// in progress, so that neither direction can wait for the other indefinitely.
+	stop := make(chan bool)
+	var stopOnce sync.Once
+	halt := func() {
+		stopOnce.Do(func() {
+			close(stop)
+			sc.Close()
+			if c, ok := cc.(io.Closer); ok {
+				c.Close()
+			}
+		})
+	}
+	defer halt()
+	go func() {
+		select {
+		case <-closing:
+			halt()
+		case <-stop:
+		}
+	}()
+
+	// readersDone tells the writer goroutines of both relays that nothing will be queued any more.
+	readersDone := make(chan struct{})
 	var wg sync.WaitGroup
 	wg.Add(2)
 	go func() { // Forwards frames from client to server.
 		defer wg.Done()
-		if err := cToS.relayFrames(closing); err != nil {
+		defer halt()
+		if err := cToS.relayFrames(stop, readersDone); err != nil {
 			log.Errorf("relaying frame from client to %v: %v", url, err)
 		}
 	}()
 	go func() { // Forwards frames from server to client.
 		defer wg.Done()
-		if err := sToC.relayFrames(closing); err != nil {
+		defer halt()
+		if err := sToC.relayFrames(stop, readersDone); err != nil {
 			log.Errorf("relaying frame from %v to client: %v", url, err)
 		}
 	}()
 	wg.Wait()
+	close(readersDone)
 	return nil
 }
 
